@@ -83,6 +83,20 @@ Proof.
   destruct G as [G1 G2]. repeat split; assumption.
 Qed.
 
+(* the key a SPIFFE workload signs with is the default load of its PKCS#8 private key with the
+   leaf certificate attached: every identity-relevant field (and the private half) is that load's *)
+Lemma svid_key_is_default_load sha body d raw k :
+  svid_in_toto_key sha body (Some d) raw = Ok k ->
+  exists k0, load_key_reader_defaults sha body (RData d) = Ok k0 /\
+    k_keyid k = k_keyid k0 /\ k_hashalgs k = k_hashalgs k0 /\ k_keytype k = k_keytype k0 /\
+    k_scheme k = k_scheme k0 /\ k_public k = k_public k0 /\ k_private k = k_private k0 /\
+    k_cert k = pem_encode body (bs "CERTIFICATE") [] raw.
+Proof.
+  unfold svid_in_toto_key. intro H.
+  destruct (load_key_reader_defaults sha body (RData d)) as [k0|e|e]; cbn [rbind] in H; try discriminate.
+  inversion H; subst. exists k0. cbn [k_keyid k_hashalgs k_keytype k_scheme k_public k_private k_cert]. auto 10.
+Qed.
+
 (* ---------- instances for the non-vacuity example of props/C19.v ---------- *)
 Module C19_examples.
   (* a stand-in for SHA-256 that returns a non-empty byte string *)
